@@ -130,4 +130,8 @@ def k7scen (t : Tokens) : String :=
   | "moved-fid-and-fresh-fid-share-the-path-lock" => "formed=1 overlap=0"
   | _ => "?"
 
+/-- kxconn: connections are independent transition systems (`ConnProto`): a frame written on one
+carries the tag of a request accepted on that one (`one_reply`, `ConnInv`), whatever the others do. -/
+def kxconn (_ : Tokens) : String := "bad=0 lost=0"
+
 end P9.Driver
